@@ -764,7 +764,9 @@ def check_padding(case):
         if kind == "pack":
             if not packs:
                 raise Violation("padding-pack-asks-child", msg)
-            reqs = [min(probe.natural, packs[-1][0])]
+            # the child packs itself into the space beside the fixed margins (not below min_width): computed
+            # here from the options, not read back from the size urwid passed to pack()
+            reqs = [min(probe.natural, max(maxcol - left - right, minimum or 0))]
         else:
             reqs = _requested(kind, amount, minimum, maxcol - left - right)
         res = _axis_oracle("padding", maxcol, left, right, pct, reqs, cw, lo, hi, msg)
